@@ -109,7 +109,7 @@ def parseContent (s : String) : Option DContent :=
   let tag := (s.take 1).toString
   let rest := (s.drop 1).toString
   match tag with
-  | "C" => rest.toNat?.map .chunk
+  | "C" => if rest.startsWith "k" then (rest.drop 1).toString.toNat?.map .chunkPre else rest.toNat?.map .chunk
   | "S" =>
     match rest.splitOn "." with
     | [o, n, v] => do pure (.pad (← o.toNat?) (← n.toNat?) (v == "v" || v == "d"))
@@ -204,8 +204,28 @@ def bigLine (client : Bool) (kind delta : String) : Option String := do
     let puts := (toks.filter fun | .W _ _ => true | _ => false).length
     pure s!"{resName r} puts={puts}"
 
+/-- `bigm <path> <delta>`: key 1 holds the transaction set {1}; a second valid transaction of the owner arrives (client
+path: `TransactionWithPayment` with an expired quote, tolerated as an update; replication path: a vector); each
+record is about half the limit, their union re-serialised is `MAX_PACKET_SIZE + delta` long — the harness builds it
+within 511 bytes of the length 512 bytes further away from the limit, the model takes that aim. -/
+def bigmLine (client : Bool) (delta : String) : Option String := do
+  let bad : PayD := ⟨[⟨0, 0, true, false, true, true, 5⟩, ⟨1, 1, true, true, true, true, 2⟩, ⟨2, 2, true, true, true, true, 3⟩], [0, 1, 2]⟩
+  let d : Delivery := if client then ⟨true, .txp, 1, .txs [⟨0, 2, true⟩], some bad⟩ else ⟨false, .tx, 1, .txs [⟨0, 2, true⟩], none⟩
+  let plen ← if delta.startsWith "-" then (delta.drop 1).toString.toNat?.map (fun n => maxPacketSize - n - 512)
+    else delta.toNat?.map (fun n => maxPacketSize + n + 512)
+  match validateSizedPut (plen / 2 + 4096) plen d [(1, .txs [1])] with
+  | .refused => pure "tooLarge puts=0"
+  | .refusedAtPut _ => pure "tooLarge puts=0"
+  | .done r toks =>
+    let puts := (toks.filter fun | .W _ _ => true | _ => false).length
+    pure s!"{resName r} puts={puts}"
+
 def step (w : World) (ws : List String) : World × String :=
   match ws with
+  | ["bigm", p, delta] =>
+    match (match p with | "c" => some true | "r" => some false | _ => none) with
+    | some client => (w, (bigmLine client delta).getD "bad-op")
+    | none => (w, "bad-op")
   | "case" :: st :: rest =>
     match parseStore st, parseDelivery rest with
     | some s, some d => deliverLine ⟨s, []⟩ d
@@ -352,6 +372,12 @@ def historyViolates (h : List String) : Bool :=
   !w.store.isEmpty
 
 /-- oversized records the model would let through on a path -/
+def bigmCandidates : List String :=
+  ["bigm c 0", "bigm c 1000000", "bigm r 1000"].filter fun l =>
+    match words l with
+    | ["bigm", p, delta] => (bigmLine (p == "c") delta) != some "tooLarge puts=0"
+    | _ => false
+
 def bigCandidates : List String :=
   ["big r chunk 0", "big r chunk 1", "big r chunk 1000000", "big r pad 4000000", "big c chunkp 1000", "big c junkp 0", "big r junk 0"].filter fun l =>
     match words l with
@@ -368,6 +394,6 @@ def searchCandidates : List String :=
       match parseStore st, parseDelivery rest with
       | some s, some d => violates s d
       | _, _ => false
-    | _ => false) ++ (historyCandidates.filter historyViolates).flatten ++ bigCandidates
+    | _ => false) ++ (historyCandidates.filter historyViolates).flatten ++ bigCandidates ++ bigmCandidates
 
 end SafeNet.Driver.Validate
